@@ -102,7 +102,7 @@ fn emit_path(sc: &Scenario, pathno: usize, status: &str, msg: &str) -> (Vec<Stri
             let mut ax = em.ax.clone();
             ax.extend(trig_ax);
             let defs: Vec<String> = em.divisors.iter().map(|d| format!("(not (= {} 0.0))", d)).collect();
-            if status == "ok" && e.check_defined && variant.is_empty() {
+            if status == "ok" && (e.check_defined || std::env::var("SYMX_DEFINED_ALL").is_ok()) && variant.is_empty() {
                 for (i, d) in defs.iter().enumerate() {
                     goals.push((format!("defined#{}", i), format!("defined:{}", i), d.clone(), vec![]));
                 }
